@@ -560,6 +560,11 @@ class SpecEval(object):
             if n.attr not in v.fields:
                 raise ContractError('object %s has no field %s' % (v.cls, n.attr))
             return self.resolve(v.fields[n.attr])
+        if hasattr(v, 'kind') and v.kind == 'slice' and n.attr in ('start', 'stop'):
+            r = v.data[0] if n.attr == 'start' else v.data[1]
+            if r is None:
+                raise ContractError('slice.%s is None' % n.attr)
+            return r
         raise ContractError('attribute %s' % n.attr)
 
     def ev_Subscript(self, n):
